@@ -158,6 +158,8 @@ class Proc(object):
                     return ("(%s : Float)" % txt, "Float")
                 from fractions import Fraction
                 q = Fraction(txt)
+                if q.denominator == 1:
+                    return ("(%d : Rat)" % q.numerator, "Rat")
                 return ("((%d : Rat) / %d)" % (q.numerator, q.denominator), "Rat")
             if isinstance(v, str):
                 return ('"%s"' % v.replace("\\", "\\\\").replace('"', '\\"'), "Str")
@@ -327,14 +329,55 @@ class Proc(object):
             if len(args) != len(argtys):
                 raise Untranslatable("arity of %s" % fname)
             return ("(%s %s)" % (lname, " ".join(args)), rty)
-        if fname in self.procs:
-            p = self.procs[fname]
-            ptys = [t for _, t in p["params"]]
-            if len(e.args) != len(ptys):
+        if (self.spec["file"], fname) in self.procs:
+            p = self.procs[(self.spec["file"], fname)]
+            actual = list(e.args)
+            args = []
+            for n, t in p["params"]:
+                if n.startswith("self."):
+                    # an attribute the callee reads from the same object: the caller's binding of it
+                    if n not in env.vars:
+                        raise Untranslatable("%s needs %s, which the caller does not have" % (fname, n))
+                    args.append(self.coerce(env.vars[n][0], env.vars[n][1], t))
+                else:
+                    if not actual:
+                        raise Untranslatable("arity of %s" % fname)
+                    args.append(self.coerce(*self.expr(actual.pop(0), env), t))
+            if actual:
                 raise Untranslatable("arity of %s" % fname)
-            args = [self.coerce(*self.expr(a, env), w) for a, w in zip(e.args, ptys)]
+            for n, _ in p.get("implicit", []):
+                if n not in [m for m, _ in self.fixed]:
+                    raise Untranslatable("%s needs the operation %s, which the caller does not declare" % (fname, n))
             imp = " ".join(n for n, _ in p.get("implicit", []))
             return ("(%s %s %s)" % (p["name"], imp, " ".join(args)), p["ret"])
+        # a call of a callable VARIABLE (a record standing for a Python callable)
+        if isinstance(f, ast.Name) and f.id in env.vars and isinstance(env.vars[f.id][1], tuple) and env.vars[f.id][1][0] == "Rec":
+            m = self.spec.get("methods", {}).get((env.vars[f.id][1][1], "__call__"))
+            if m and len(m[1]) == len(e.args):
+                args = [self.coerce(*self.expr(a, env), w) for a, w in zip(e.args, m[1])]
+                return ("(%s %s %s)" % (m[0], env.vars[f.id][0], " ".join(args)), m[2])
+        # hasattr(x, "name") on a record: a Boolean field declared for the record
+        if fname == "hasattr" and len(e.args) == 2 and isinstance(e.args[1], ast.Constant) and isinstance(e.args[1].value, str):
+            t, ty = self.expr(e.args[0], env)
+            if isinstance(ty, tuple) and ty[0] == "Rec":
+                fld = self.spec.get("records", {}).get(ty[1], {}).get("has_" + e.args[1].value)
+                if fld:
+                    return ("%s.%s" % (t, fld[0]), "Bool")
+            raise Untranslatable("hasattr on %s" % (ty,))
+        # method of a record / call of a callable field: an opaque operation declared for (record, attribute); the receiver is its first argument
+        if isinstance(f, ast.Attribute) and not (isinstance(f.value, ast.Name) and f.value.id in ("self", "cls") and (self.spec["file"], f.attr) in self.procs):
+            try:
+                recv, rty = self.expr(f.value, env)
+            except Untranslatable:
+                recv, rty = None, None
+            if isinstance(rty, tuple) and rty[0] == "Rec":
+                m = self.spec.get("methods", {}).get((rty[1], f.attr))
+                if m:
+                    lname, argtys, rret = m
+                    if len(argtys) != len(e.args):
+                        raise Untranslatable("arity of %s.%s" % (rty[1], f.attr))
+                    args = [self.coerce(*self.expr(a, env), w) for a, w in zip(e.args, argtys)]
+                    return ("(%s %s %s)" % (lname, recv, " ".join(args)), rret)
         # dictionary look-up with default:  TABLE.get(key, default)
         if isinstance(f, ast.Attribute) and f.attr == "get" and len(e.args) == 2:
             k = self.seg(f.value)
@@ -546,12 +589,12 @@ class Proc(object):
             # the stable insertion sort by `F(a, b) <= 0`
             kname = self.seg(s.value.keywords[0].value)
             cmpf = self.spec.get("sort_keys", {}).get(kname)
-            if cmpf is None or cmpf not in self.procs:
+            if cmpf is None or (self.spec["file"], cmpf) not in self.procs:
                 raise Untranslatable("sort key %s" % kname)
             xs, xty = self.expr(s.value.func.value, env)
             if not (isinstance(xty, tuple) and xty[0] == "List"):
                 raise Untranslatable("sort of %s" % (xty,))
-            txt, en = self.assign_name(s.value.func.value, "(stableSortBy (fun a b => decide (%s a b ≤ 0)) %s)" % (self.procs[cmpf]["name"], xs), xty, env)
+            txt, en = self.assign_name(s.value.func.value, "(stableSortBy (fun a b => decide (%s a b ≤ 0)) %s)" % (self.procs[(self.spec["file"], cmpf)]["name"], xs), xty, env)
             return txt + self.block(rest, en, k)
         if isinstance(s, ast.Expr) and isinstance(s.value, ast.Call):
             # statement call of a raising proc:  self._check_positive(...)
@@ -668,6 +711,8 @@ def k_for_loop(proc, k, outer_env, inner_env):
 # --------------------------------------------------------------------------------------------------------------------------------
 RD_REC = {"PRange": {"start": ("start", "Int"), "range_type": ("range_type", "Str"), "potential_form": ("f", "Nat")}}
 
+CALLABLE_REC = {"Callable": {"has_deriv": ("has_deriv", "Bool"), "has_deriv2": ("has_deriv2", "Bool")}}
+
 PROCS = [
     # ---- C08: multi-range selection
     dict(name="range_defn_cmp", file="_multi_range_potential_form.py", func="_range_defn_cmp",
@@ -678,6 +723,30 @@ PROCS = [
     dict(name="range_defns_setter", file="_multi_range_potential_form.py", func="Multi_Range_Potential_Form.range_defns", nth=1,
          params=[("range_defns", ("List", ("Rec", "PRange")))], ret=("List", ("Rec", "PRange")), records=RD_REC,
          sort_keys={"_range_defn_key": "_range_defn_cmp"}, returns_attr="self._range_defns"),
+    dict(name="mr_call", file="_multi_range_potential_form.py", func="Multi_Range_Potential_Form.__call__",
+         params=[("self.range_defns", ("List", ("Rec", "PRange"))), ("self.default_value", "Rat"), ("r", "Int")], ret="Rat", records=RD_REC,
+         implicit=[("evalForm", ("Fun", [("Rec", "PRange"), "Int"], "Rat"))], methods={("PRange", "potential_form"): ("evalForm", ["Int"], "Rat")}),
+    dict(name="mr_deriv", file="_multi_range_potential_form.py", func="Multi_Range_Potential_Form_Deriv.deriv",
+         params=[("self.range_defns", ("List", ("Rec", "PRange"))), ("r", "Int")], ret="Rat", records=RD_REC,
+         implicit=[("rangeDeriv", ("Fun", [("Rec", "PRange"), "Int"], "Rat"))], methods={("PRange", "deriv"): ("rangeDeriv", ["Int"], "Rat")}),
+    dict(name="mr_deriv2", file="_multi_range_potential_form.py", func="Multi_Range_Potential_Form_Deriv2.deriv2",
+         params=[("self.range_defns", ("List", ("Rec", "PRange"))), ("r", "Int")], ret="Rat", records=RD_REC,
+         implicit=[("rangeDeriv2", ("Fun", [("Rec", "PRange"), "Int"], "Rat"))], methods={("PRange", "deriv2"): ("rangeDeriv2", ["Int"], "Rat")}),
+    # ---- C07 / C01: which derivative is used
+    dict(name="num_deriv", file="_util.py", func="num_deriv",
+         params=[("r", "Rat"), ("func", ("Rec", "Callable")), ("h", "Rat")], ret="Rat", records=CALLABLE_REC,
+         implicit=[("evalFn", ("Fun", [("Rec", "Callable"), "Rat"], "Rat"))], methods={("Callable", "__call__"): ("evalFn", ["Rat"], "Rat")}),
+    dict(name="util_deriv", file="_util.py", func="deriv",
+         params=[("r", "Rat"), ("func", ("Rec", "Callable")), ("h", "Rat")], ret="Rat", records=CALLABLE_REC,
+         implicit=[("evalFn", ("Fun", [("Rec", "Callable"), "Rat"], "Rat")), ("analyticDeriv", ("Fun", [("Rec", "Callable"), "Rat"], "Rat"))],
+         methods={("Callable", "deriv"): ("analyticDeriv", ["Rat"], "Rat"), ("Callable", "__call__"): ("evalFn", ["Rat"], "Rat")}),
+    dict(name="gradient_call", file="_util.py", func="_GradientWrapper.__call__",
+         params=[("self._wrapped", ("Rec", "Callable")), ("self._h", "Rat"), ("r", "Rat")], ret="Rat", records=CALLABLE_REC,
+         implicit=[("evalFn", ("Fun", [("Rec", "Callable"), "Rat"], "Rat")), ("analyticDeriv", ("Fun", [("Rec", "Callable"), "Rat"], "Rat"))]),
+    dict(name="potential_force", file="_potential.py", func="Potential.force",
+         params=[("r", "Rat")], ret="Rat", implicit=[("derivFunction", ("Fun", ["Rat"], "Rat"))], ops={"_derivFunction": ("derivFunction", ["Rat"], "Rat")}),
+    dict(name="potential_energy", file="_potential.py", func="Potential.energy",
+         params=[("r", "Rat")], ret="Rat", implicit=[("potentialFunction", ("Fun", ["Rat"], "Rat"))], ops={"_potentialFunction": ("potentialFunction", ["Rat"], "Rat")}),
     # ---- C13: species filter
     dict(name="check_tuple", file="config/_filtered_config_parser.py", func="FilteredConfigParser._check_tuple",
          params=[("self._self_species_list", ("List", "Str")), ("self._self_exclude_flag", "Bool"), ("check_tuple", ("List", "Str"))], ret="Bool"),
@@ -716,6 +785,13 @@ structure PRange where
   range_type : String
   start : Int
   f : Nat
+deriving DecidableEq, Repr
+
+/-- a Python callable as the derivative plumbing sees it: its identity and whether it offers `.deriv` / `.deriv2` -/
+structure Callable where
+  fid : Nat
+  has_deriv : Bool
+  has_deriv2 : Bool
 deriving DecidableEq, Repr
 
 /-- the configuration errors raised by the translated functions, identified by their message -/
@@ -826,7 +902,7 @@ def gen_logic(repo, outdir, summary, write_if_changed):
     cache = {}
     procs = {}
     for spec in PROCS:
-        procs[spec["func"].rsplit(".", 1)[-1]] = spec
+        procs[(spec["file"], spec["func"].rsplit(".", 1)[-1])] = spec      # calls are resolved within the same source file
     for spec in PROCS:
         try:
             fp = os.path.join(repo, "atsim/potentials", spec["file"])
